@@ -21,12 +21,12 @@ import (
 
 // Backends
 const (
-	BBolt       = "bbolt"        // store/bbolt behind the monitor
-	BBoltRaw    = "bbolt-open"   // clover.Open(dir): the default path, no monitor
-	BadgerMem   = "badger-mem"   // store/badger in memory behind the monitor
-	BadgerDisk  = "badger-disk"  // store/badger on disk behind the monitor
-	BadgerShip  = "badger-ship"  // badgerstore.Open(dir): shipped default options, behind the monitor
-	BadgerRaw   = "badger-open"  // store/badger on disk handed to clover directly: the store's real buffer-reuse behaviour, no monitor in between
+	BBolt      = "bbolt"       // store/bbolt behind the monitor
+	BBoltRaw   = "bbolt-open"  // clover.Open(dir): the default path, no monitor
+	BadgerMem  = "badger-mem"  // store/badger in memory behind the monitor
+	BadgerDisk = "badger-disk" // store/badger on disk behind the monitor
+	BadgerShip = "badger-ship" // badgerstore.Open(dir): shipped default options, behind the monitor
+	BadgerRaw  = "badger-open" // store/badger on disk handed to clover directly: the store's real buffer-reuse behaviour, no monitor in between
 )
 
 type Handle struct {
